@@ -16,7 +16,7 @@ import (
 )
 
 func vhWorker() *SqliteStoreWorker {
-	return &SqliteStoreWorker{config: &Config{}, db: vx.DB("sqlite")}
+	return VXWorker(vx.DB("sqlite"))
 }
 
 var vhTables = []string{"promises", "callbacks", "schedules", "locks", "tasks"}
